@@ -21,6 +21,9 @@ type Access struct {
 	Type   types.Type
 	Write  bool
 	Kind   string // store | load | map-update | map-delete | elem-store | addr
+	// for map-update: the key and the value stored (in Fn's terms; nil when the update is made by a helper from
+	// something that is not one of its parameters)
+	MapKey, MapVal ssa.Value
 	Local  bool   // base object allocated in this function (not yet published)
 	Base   string // symbolic path of the base object
 	Locks  lockset.State
@@ -81,10 +84,42 @@ func CollectAccesses(c *Ctx) []Access {
 							case *ssa.MapUpdate:
 								if y.Map == x {
 									mk(y, true, "map-update")
+									out[len(out)-1].MapKey, out[len(out)-1].MapVal = y.Key, y.Value
 								}
 							case *ssa.Call:
 								if b, ok := y.Call.Value.(*ssa.Builtin); ok && b.Name() == "delete" && len(y.Call.Args) > 0 && y.Call.Args[0] == x {
 									mk(y, true, "map-delete")
+								}
+								// the map handed to a library helper that updates / deletes from the map it is given
+								// (putOrdered(m.tbl, ...)): an update of this member made at the call
+								if sc := ir.StaticCallee(y); sc != nil && c.P.IsLib(sc) {
+									for ai, a := range y.Call.Args {
+										if a != ssa.Value(x) || ai >= len(sc.Params) {
+											continue
+										}
+										mp := sc.Params[ai]
+										argOf := func(v ssa.Value) ssa.Value {
+											for pi, q := range sc.Params {
+												if ssa.Value(q) == v && pi < len(y.Call.Args) {
+													return y.Call.Args[pi]
+												}
+											}
+											return nil
+										}
+										ir.EachInstr(sc, func(_ *ssa.BasicBlock, _ int, hin ssa.Instruction) {
+											switch h := hin.(type) {
+											case *ssa.MapUpdate:
+												if h.Map == ssa.Value(mp) {
+													mk(y, true, "map-update")
+													out[len(out)-1].MapKey, out[len(out)-1].MapVal = argOf(h.Key), argOf(h.Value)
+												}
+											case *ssa.Call:
+												if b, ok := h.Call.Value.(*ssa.Builtin); ok && b.Name() == "delete" && len(h.Call.Args) > 0 && h.Call.Args[0] == ssa.Value(mp) {
+													mk(y, true, "map-delete")
+												}
+											}
+										})
+									}
 								}
 							case *ssa.IndexAddr:
 								if y.X == x {
